@@ -630,6 +630,17 @@ impl<'a, 'tcx> BodyCx<'a, 'tcx> {
                         }
                     }
                 }
+                if !done && value.ty.is_str() {
+                    let bytes: Option<Vec<u8>> = value
+                        .to_branch()
+                        .into_iter()
+                        .map(|ct| (*ct).try_to_value().and_then(|v| v.try_to_leaf().map(|l| l.to_u8())))
+                        .collect();
+                    if let Some(bytes) = bytes {
+                        let _ = write!(o, ",\"k\":\"Const\",\"lt\":\"str\",\"v\":{}", esc(&String::from_utf8_lossy(&bytes)));
+                        done = true;
+                    }
+                }
                 if !done && (value.ty.is_integral() || value.ty.is_bool() || value.ty.is_char()) {
                     if let Some(si) = value.try_to_leaf() {
                         let bits = si.to_bits_unchecked();
